@@ -170,14 +170,17 @@ inductive ImmTok where
   | ident (i : Ident)                                        -- key "identifier"
   deriving DecidableEq, Repr
 
+/-- `Word(nums) + "." + Word(nums)` without white space -/
+def mantissaNS (s : Txt) : Res Txt :=
+  match wordNS isDigitC s with
+  | some (a, 46 :: r1) => mapR (fun b => a ++ 46 :: b) (wordNS isDigitC r1)
+  | _ => none
+
 /-- `Combine(Optional("-") + Word(nums) + "." + Word(nums))` -/
 def mantissa (s : Txt) : Res Txt :=
-  let s0 := skipWs s
-  let sign : Txt := match s0 with | 45 :: _ => [45] | _ => []
-  let r : Txt := match s0 with | 45 :: r => r | _ => s0
-  match wordNS isDigitC r with
-  | some (a, 46 :: r1) => mapR (fun b => sign ++ a ++ 46 :: b) (wordNS isDigitC r1)
-  | _ => none
+  match skipWs s with
+  | 45 :: r => mapR (fun m => 45 :: m) (mantissaNS r)
+  | s0 => mantissaNS s0
 
 /-- `CaselessLiteral("e") + Word("+-") + Word(nums)` -/
 def exponent (s : Txt) : Res (Txt × Txt) :=
@@ -536,20 +539,23 @@ def opt2list {α : Type} : Option α → List α
   | some x => [x]
   | none => []
 
+/-- the operand slots after the first: `Optional(Suppress(",")) + Optional(operand_rest)`, `n` times -/
+def restSlots : Nat → Txt → List RawOp × Txt
+  | 0, s => ([], s)
+  | n + 1, s =>
+    (opt2list (optP true operandRest (optLit true [44] s)).1
+        ++ (restSlots n (optP true operandRest (optLit true [44] s)).2).1,
+      (restSlots n (optP true operandRest (optLit true [44] s)).2).2)
+
 /-- `mnemonic + Optional(operand1) + Optional(",") + Optional(operand2) + … + Optional(comment)`,
-    `parseAll=True` -/
+    `parseAll=True`; the number of slots is the grammar's (`Gen.A64.operandSlots`) -/
 def instrP (s : Txt) : Option RawInstr :=
   match word true isMnemC s with
   | some (mn, r0) =>
     let o1 := optP true operandFirst r0
-    let o2 := optP true operandRest (optLit true [44] o1.2)
-    let o3 := optP true operandRest (optLit true [44] o2.2)
-    let o4 := optP true operandRest (optLit true [44] o3.2)
-    let o5 := optP true operandRest (optLit true [44] o4.2)
-    let c := optP true commentP o5.2
-    if atEnd c.2 then
-      some ⟨mn, opt2list o1.1 ++ opt2list o2.1 ++ opt2list o3.1 ++ opt2list o4.1 ++ opt2list o5.1, c.1⟩
-    else none
+    let os := restSlots (A64.operandSlots - 1) o1.2
+    let c := optP true commentP os.2
+    if atEnd c.2 then some ⟨mn, opt2list o1.1 ++ os.1, c.1⟩ else none
   | none => none
 
 /-! ### post-processing -/
@@ -558,29 +564,41 @@ inductive Err where
   | exc   -- any other exception type escaping parse_line
   deriving DecidableEq, Repr
 
-/-- `int(text, 0)` for the texts the grammar can produce (`-`? digits | `-`? `0x` hexdigits) -/
-def pyInt0 (t : Txt) : Option Int :=
-  let neg : Bool := match t with | 45 :: _ => true | _ => false
-  let r : Txt := match t with | 45 :: r => r | _ => t
-  let v : Option Nat :=
-    match r with
-    | 48 :: 120 :: h => if !h.isEmpty && h.all isHexC then some (natOfDigits 16 h) else none
-    | 48 :: 88 :: h => if !h.isEmpty && h.all isHexC then some (natOfDigits 16 h) else none
-    | _ =>
-      if !r.isEmpty && r.all isDigitC then
-        (if r.head? == some 48 && natOfDigits 10 r != 0 then none else some (natOfDigits 10 r))
-      else none
+def hexBody (h : Txt) : Option Nat :=
+  if !h.isEmpty && h.all isHexC then some (natOfDigits 16 h) else none
+
+/-- `int(text, 0)` of an unsigned text: `0x…` hexadecimal, else decimal without leading zeros
+    (`"00"` is accepted, `"010"` is not) -/
+def pyNat0 (r : Txt) : Option Nat :=
+  match r with
+  | 48 :: 120 :: h => hexBody h
+  | 48 :: 88 :: h => hexBody h
+  | _ =>
+    if !r.isEmpty && r.all isDigitC then
+      (if r.head? == some 48 && natOfDigits 10 r != 0 then none else some (natOfDigits 10 r))
+    else none
+
+def negInt (v : Option Nat) : Option Int :=
   match v with
-  | some n => some (if neg then - (n : Int) else (n : Int))
+  | some n => some (- (n : Int))
+  | none => none
+def posInt (v : Option Nat) : Option Int :=
+  match v with
+  | some n => some (n : Int)
   | none => none
 
+/-- `int(text, 0)` for the texts the grammar can produce (`-`? digits | `-`? `0x` hexdigits) -/
+def pyInt0 : Txt → Option Int
+  | 45 :: r => negInt (pyNat0 r)
+  | t => posInt (pyNat0 t)
+
+def pyNat10 (r : Txt) : Option Nat :=
+  if !r.isEmpty && r.all isDigitC then some (natOfDigits 10 r) else none
+
 /-- `int(text)` (base 10) -/
-def pyInt10 (t : Txt) : Option Int :=
-  let neg : Bool := match t with | 45 :: _ => true | _ => false
-  let r : Txt := match t with | 45 :: r => r | _ => t
-  if !r.isEmpty && r.all isDigitC then
-    some (if neg then - (natOfDigits 10 r : Int) else (natOfDigits 10 r : Int))
-  else none
+def pyInt10 : Txt → Option Int
+  | 45 :: r => negInt (pyNat10 r)
+  | t => posInt (pyNat10 t)
 
 /-- `process_register_operand` -/
 def processRegister (t : RegTok) (index : Option Txt) : Except Err Reg :=
@@ -662,37 +680,59 @@ def shiftText (s : Option ImmTok) : Option Txt :=
   | some (.num t) => some t
   | some _ => some [63]
 
+/-- offset of a memory operand: `int(value, 0)`, identifier, or left as the grammar's dictionary -/
+def memOffsetOf (o : Option OffTok) : Except Err (Option MemOff) :=
+  match o with
+  | none => .ok none
+  | some (.imm (.num t)) => match pyInt0 t with | some v => .ok (some (.imm v)) | none => .error .err
+  | some (.imm (.ident i)) => .ok (some (.ident i))
+  | some (.imm (.flt _ _ _)) => .ok (some .other)
+  | some .arith => .ok (some .other)
+
+/-- `scale = 2 ** int(shift)` if the index carries one of `valid_shift_ops` with an amount, else 1 -/
+def memScaleOf (index : Option RegTok) : Except Err Nat :=
+  match index with
+  | some ix =>
+    match ix.shift, ix.shiftOp with
+    | some sh, some op =>
+      if A64.validShiftOps.contains (lower op) then
+        match sh with
+        | .num t =>
+          match pyInt10 t with
+          | some (Int.ofNat n) => .ok (A64.scaleBase ^ n)
+          | some _ => .error .exc          -- negative amount: a float scale; outside the model
+          | none => .error .err
+        | _ => .error .err                  -- KeyError 'value'
+      else .ok A64.defaultScale
+    | _, _ => .ok A64.defaultScale
+  | none => .ok A64.defaultScale
+
+def memPostOf (p : Option ImmTok) : Except Err (Option PostIdx) :=
+  match p with
+  | none => .ok none
+  | some (.num t) => match pyInt0 t with | some v => .ok (some (.imm v)) | none => .error .err
+  | some _ => .ok (some .other)
+
+/-- base/index register: name as written; prefix lower-cased, `x` for the sp/zr aliases -/
+def memRegOf (r : RegTok) : Except Err (Txt × Txt) :=
+  match r.name with
+  | none => .error .exc
+  | some n =>
+    match (match forcedPrefix n with | some p => some p | none => r.pre) with
+    | some p => .ok (lower p, n)
+    | none => .error .exc
+
+def memIndexOf (index : Option RegTok) : Except Err (Option MemIdx) :=
+  match index with
+  | none => .ok none
+  | some ix =>
+    match memRegOf ix with
+    | .ok (p, n) => .ok (some ⟨p, n, ix.shiftOp, shiftText ix.shift⟩)
+    | .error e => .error e
+
 /-- `process_memory_address` -/
 def processMemory (m : MemTok) : Except Err Mem :=
-  let offset : Except Err (Option MemOff) :=
-    match m.offset with
-    | none => .ok none
-    | some (.imm (.num t)) => match pyInt0 t with | some v => .ok (some (.imm v)) | none => .error .err
-    | some (.imm (.ident i)) => .ok (some (.ident i))
-    | some (.imm (.flt _ _ _)) => .ok (some .other)
-    | some .arith => .ok (some .other)
-  let scale : Except Err Nat :=
-    match m.index with
-    | some ix =>
-      match ix.shift, ix.shiftOp with
-      | some sh, some op =>
-        if A64.validShiftOps.contains (lower op) then
-          match sh with
-          | .num t =>
-            match pyInt10 t with
-            | some (Int.ofNat n) => .ok (A64.scaleBase ^ n)
-            | some _ => .error .exc          -- negative amount: a float scale; outside the model
-            | none => .error .err
-          | _ => .error .err                  -- KeyError 'value'
-        else .ok A64.defaultScale
-      | _, _ => .ok A64.defaultScale
-    | none => .ok A64.defaultScale
-  let post : Except Err (Option PostIdx) :=
-    match m.post with
-    | none => .ok none
-    | some (.num t) => match pyInt0 t with | some v => .ok (some (.imm v)) | none => .error .err
-    | some _ => .ok (some .other)
-  match offset, scale, post with
+  match memOffsetOf m.offset, memScaleOf m.index, memPostOf m.post with
   | .error e, _, _ => .error e
   | _, .error e, _ => .error e
   | _, _, .error e => .error e
@@ -700,27 +740,12 @@ def processMemory (m : MemTok) : Except Err Mem :=
     match m.base with
     | none => .error .exc
     | some b =>
-      match b.name with
-      | none => .error .exc
-      | some bn =>
-        let bp : Option Txt := match forcedPrefix bn with | some p => some p | none => b.pre
-        let idx : Except Err (Option MemIdx) :=
-          match m.index with
-          | none => .ok none
-          | some ix =>
-            match ix.name with
-            | none => .error .exc
-            | some xn =>
-              let xp : Option Txt := match forcedPrefix xn with | some p => some p | none => ix.pre
-              match xp with
-              | some p => .ok (some ⟨lower p, xn, ix.shiftOp, shiftText ix.shift⟩)
-              | none => .error .exc
-        match bp, idx with
-        | _, .error e => .error e
-        | none, _ => .error .exc
-        | some p, .ok ixo =>
-          .ok { offset := off, basePre := lower p, baseName := bn, index := ixo, scale := sc,
-                pre := m.pre, post := po }
+      match memRegOf b, memIndexOf m.index with
+      | .error e, _ => .error e
+      | _, .error e => .error e
+      | .ok bpn, .ok ixo =>
+        .ok { offset := off, basePre := bpn.1, baseName := bpn.2, index := ixo, scale := sc,
+              pre := m.pre, post := po }
 
 /-- `process_operand` on one operand slot -/
 def processOperand (o : RawOp) : Except Err (List Operand) :=
